@@ -31,22 +31,22 @@ def replay_find_element(inp):
     return (not ok), msg
 
 
-def lmpdat_text(masses):
+def lmpdat_text(masses, comments=None):
     lines = ["x (written by test)", "", "%d atoms" % len(masses), "", "%d atom types" % len(masses), "",
              " 0.0 10.0 xlo xhi", " 0.0 10.0 ylo yhi", " 0.0 10.0 zlo zhi", "", "Masses", ""]
     for i, m in enumerate(masses):
-        lines.append(" %d %10.6f" % (i + 1, m))
+        lines.append(" %d %10.6f%s" % (i + 1, m, (" # " + comments[i]) if comments else ""))
     lines += ["", "Atoms", ""]
     for i in range(len(masses)):
         lines.append(" %d 1 %d 0.0 %f 0.0 0.0" % (i + 1, i + 1, float(i)))
     return "\n".join(lines) + "\n"
 
 
-def check_lmpdat(masses, guess_atol=0.1):
+def check_lmpdat(masses, guess_atol=0.1, comments=None):
     from mofun import Atoms
     from mofun.atomic_masses import ATOMIC_MASSES
     with quiet():
-        a = Atoms.load_lmpdat(io.StringIO(lmpdat_text(masses)), guess_atol=guess_atol)
+        a = Atoms.load_lmpdat(io.StringIO(lmpdat_text(masses, comments)), guess_atol=guess_atol)
     printed = [float("%10.6f" % m) for m in masses]
     wants = [spec_find(m, guess_atol, ATOMIC_MASSES) for m in printed]
     got = list(a.atom_type_elements)
@@ -58,7 +58,7 @@ def check_lmpdat(masses, guess_atol=0.1):
 
 
 def replay_lmpdat(inp):
-    ok, msg = check_lmpdat([float(x) for x in inp['masses']], float(inp.get('guess_atol', 0.1)))
+    ok, msg = check_lmpdat([float(x) for x in inp['masses']], float(inp.get('guess_atol', 0.1)), inp.get('comments'))
     return (not ok), msg
 
 
@@ -133,6 +133,17 @@ def run(rec, tier, seed):
         rec.case(('lmp', tuple(ms)), sample={'lmpdat_masses': ms} if len(rec.samples) < 4 else None, group='load_lmpdat')
         if not ok:
             rec.fail('lmpdat_masses', 'load_lmpdat-masses', msg, {'masses': ms}, contract='C14/load_lmpdat')
+    # Masses lines that carry a label comment: the label is not a mass -- elements still come from the masses, and a non-atomic mass still
+    # means type numbers for all types, whatever the comment says
+    for ms, cm in (([2.014], ['H']), ([12.0107, 2.5], ['C', 'H']), ([12.0107, 15.9994], ['O', 'C']), ([500.0, 12.0107], ['Zr', 'C']), ([12.0107, 14.0067], ['C_R', 'N_3']),
+                   ([1.00794, 400.0], ['H_', 'Du'])):
+        try:
+            ok, msg = check_lmpdat(ms, comments=cm)
+        except Exception as e:
+            ok, msg = False, "load_lmpdat raised %r for masses %r" % (e, ms)
+        rec.case(('lmp-comment', tuple(ms), tuple(cm)), group='load_lmpdat')
+        if not ok:
+            rec.fail('lmpdat_masses', 'load_lmpdat-masses', msg + " (Masses comments %r)" % (cm,), {'masses': ms, 'comments': cm}, contract='C14/load_lmpdat')
     # write/read survival of distinguishable elements
     vals = sorted(T.values())
     for e, m in order:
